@@ -384,8 +384,9 @@ func compWS(o *out, seed uint64, tier string) {
 		for i, n := range []int{65536, 65536 + 3000, 2 * 65536, 5000} {
 			for _, lvl := range []int{0, 512} {
 				a := fmt.Sprintf("A:bs=4,conc=%d,lvl=%d,bc=%d", 1+i%2, lvl, i%2)
-				emit(&wsCase{ops: []string{a, fmt.Sprintf("W:g:%d,%d,%d", kind, r.intn(1000), n), "C"}, wf: true, rdconc: 1}, "late-match-in-incompressible-block")
-				emit(&wsCase{ops: []string{a, fmt.Sprintf("RF:g:%d,%d,%d|0", kind, r.intn(1000), n), "C"}, wf: true, rdconc: 1}, "late-match-in-incompressible-block")
+				// (kind 4: the error return needs about 200..260 zero bytes at the end of a 64 KiB block: seeds 160..219)
+				emit(&wsCase{ops: []string{a, fmt.Sprintf("W:g:%d,%d,%d", kind, 160+r.intn(60), n), "C"}, wf: true, rdconc: 1}, "late-match-in-incompressible-block")
+				emit(&wsCase{ops: []string{a, fmt.Sprintf("RF:g:%d,%d,%d|0", kind, 160+r.intn(60), n), "C"}, wf: true, rdconc: 1}, "late-match-in-incompressible-block")
 			}
 		}
 	}
